@@ -143,3 +143,419 @@ Proof.
   intros H. unfold execute. rewrite reject_object_id_eq, reject_read_code_eq.
   replace ((0 <=? oid) && (oid <=? 255)) with true by lia. reflexivity.
 Qed.
+
+(* ================================================================== completeness *)
+From Coq Require Import Sorting.Sorted.
+
+(* ------------------------------------------------------------------ lists *)
+
+Lemma filter_none {A} (p : A -> bool) l : (forall x, In x l -> p x = false) -> filter p l = [].
+Proof.
+  induction l as [|a t IH]; intros H; [reflexivity|]. cbn [filter].
+  rewrite (H a (or_introl eq_refl)). apply IH. intros x Hx. apply H. right; exact Hx.
+Qed.
+
+Lemma filter_all {A} (p : A -> bool) l : (forall x, In x l -> p x = true) -> filter p l = l.
+Proof.
+  induction l as [|a t IH]; intros H; [reflexivity|]. cbn [filter].
+  rewrite (H a (or_introl eq_refl)). f_equal. apply IH. intros x Hx. apply H. right; exact Hx.
+Qed.
+
+Lemma filter_len_le {A} (p : A -> bool) l : (length (filter p l) <= length l)%nat.
+Proof. induction l as [|a t IH]; [apply le_n|]. cbn [filter]. destruct (p a); cbn [length]; lia. Qed.
+
+Lemma filter_comm {A} (p q : A -> bool) l : filter p (filter q l) = filter q (filter p l).
+Proof.
+  induction l as [|a t IH]; [reflexivity|]. cbn [filter].
+  destruct (q a) eqn:Eq, (p a) eqn:Ep; cbn [filter]; rewrite ?Eq, ?Ep, IH; reflexivity.
+Qed.
+
+Lemma filter_weaker {A} (p q : A -> bool) l :
+  (forall x, p x = true -> q x = true) -> filter p (filter q l) = filter p l.
+Proof.
+  intros H. induction l as [|a t IH]; [reflexivity|]. cbn [filter].
+  destruct (q a) eqn:Eq; cbn [filter].
+  - rewrite IH. reflexivity.
+  - destruct (p a) eqn:Ep; [rewrite (H a Ep) in Eq; discriminate | exact IH].
+Qed.
+
+Lemma zrange_app a m n : zrange a (m + n) = zrange a m ++ zrange (a + Z.of_nat m) n.
+Proof.
+  revert a. induction m as [|m IH]; intros a.
+  - cbn [plus zrange app Z.of_nat]. rewrite Z.add_0_r. reflexivity.
+  - cbn [plus zrange app]. rewrite IH. do 3 f_equal. lia.
+Qed.
+
+Lemma zrange_In a n x : In x (zrange a n) <-> a <= x < a + Z.of_nat n.
+Proof.
+  revert a. induction n as [|n IH]; intros a; cbn [zrange In].
+  - lia.
+  - rewrite IH. lia.
+Qed.
+
+Lemma py_range_In lo hi x : In x (py_range lo hi) <-> lo <= x < hi.
+Proof. unfold py_range. rewrite zrange_In. lia. Qed.
+
+Lemma py_range_filter lo hi : 0 <= lo ->
+  py_range lo hi = filter (fun k => lo <=? k) (py_range 0 hi).
+Proof.
+  intros Hlo. unfold py_range. destruct (Z_le_gt_dec lo hi) as [H|H].
+  - replace (Z.to_nat (hi - 0)) with (Z.to_nat lo + Z.to_nat (hi - lo))%nat by lia.
+    rewrite zrange_app, filter_app.
+    rewrite filter_none by (intros x Hx; apply zrange_In in Hx; lia).
+    rewrite filter_all by (intros x Hx; apply zrange_In in Hx; lia).
+    cbn [app]. f_equal. lia.
+  - replace (Z.to_nat (hi - lo)) with O by lia. cbn [zrange].
+    symmetry. apply filter_none. intros x Hx. apply zrange_In in Hx. lia.
+Qed.
+
+(* ------------------------------------------------------------------ objects_of *)
+
+Lemma objects_of_filter idn p ids :
+  objects_of idn (filter p ids) = filter (fun o => p (fst o)) (objects_of idn ids).
+Proof.
+  unfold objects_of. induction ids as [|k t IH]; [reflexivity|]. cbn [filter map].
+  destruct (p k) eqn:Ep; cbn [map filter].
+  - destruct (obj_nonempty (k, idn k)) eqn:En; cbn [filter fst]; rewrite ?Ep, IH; reflexivity.
+  - destruct (obj_nonempty (k, idn k)) eqn:En; cbn [filter fst]; rewrite ?Ep, IH; reflexivity.
+Qed.
+
+Lemma objects_of_In idn ids k v :
+  In (k, v) (objects_of idn ids) <-> In k ids /\ v = idn k /\ nonempty v = true.
+Proof.
+  unfold objects_of. rewrite filter_In, in_map_iff. unfold obj_nonempty. cbn [snd]. split.
+  - intros [[x [Hx Hin]] Hn]. inversion Hx; subst. auto.
+  - intros [Hin [-> Hn]]. split; [exists k; auto | exact Hn].
+Qed.
+
+Definition allobjs (idn : identity) (c : Z) : list object := objects_of idn (category c).
+Definition from (s : Z) (o : object) : bool := s <=? fst o.
+
+Lemma expected_alt idn c s : expected idn c s = filter (from s) (allobjs idn c).
+Proof. unfold expected, allobjs. apply objects_of_filter. Qed.
+
+(* ------------------------------------------------------------------ strictly increasing ids *)
+
+Definition lt_id (a b : object) : Prop := fst a < fst b.
+
+Fixpoint incrb (l : list Z) : bool :=
+  match l with [] => true | x :: t => forallb (Z.ltb x) t && incrb t end.
+
+Lemma incrb_sound l : incrb l = true -> StronglySorted Z.lt l.
+Proof.
+  induction l as [|x t IH]; intros H; [constructor|]. cbn [incrb] in H.
+  apply andb_prop in H as [H1 H2]. constructor; [auto|].
+  apply Forall_forall. intros y Hy. rewrite forallb_forall in H1. specialize (H1 y Hy). lia.
+Qed.
+
+Lemma category_sorted c : StronglySorted Z.lt (category c).
+Proof.
+  unfold category. destruct (c =? 1); [apply incrb_sound; vm_compute; reflexivity|].
+  destruct (c =? 2); [apply incrb_sound; vm_compute; reflexivity|].
+  destruct (c =? 3); [apply incrb_sound; vm_compute; reflexivity|constructor].
+Qed.
+
+Lemma category_bounds c k : In k (category c) -> 0 <= k <= 255.
+Proof.
+  assert (H : forallb (fun k => (0 <=? k) && (k <=? 255)) (category c) = true).
+  { unfold category. destruct (c =? 1); [vm_compute; reflexivity|].
+    destruct (c =? 2); [vm_compute; reflexivity|]. destruct (c =? 3); vm_compute; reflexivity. }
+  rewrite forallb_forall in H. intros Hk. specialize (H k Hk). lia.
+Qed.
+
+Lemma sorted_objects idn ids : StronglySorted Z.lt ids -> StronglySorted lt_id (objects_of idn ids).
+Proof.
+  unfold objects_of. induction 1 as [|k t Hs IH Hf]; cbn [map filter]; [constructor|].
+  destruct (obj_nonempty (k, idn k)); [|exact IH]. constructor; [exact IH|].
+  apply Forall_forall. intros [k' v'] Hin. apply filter_In in Hin as [Hin _].
+  apply in_map_iff in Hin as [x [Hx Hin]]. inversion Hx; subst.
+  rewrite Forall_forall in Hf. unfold lt_id; cbn [fst]. apply Hf. exact Hin.
+Qed.
+
+Lemma sorted_filter {A} (R : A -> A -> Prop) p l : StronglySorted R l -> StronglySorted R (filter p l).
+Proof.
+  induction 1 as [|a t Hs IH Hf]; cbn [filter]; [constructor|].
+  destruct (p a); [|exact IH]. constructor; [exact IH|].
+  apply Forall_forall. intros x Hx. apply filter_In in Hx as [Hx _].
+  rewrite Forall_forall in Hf. auto.
+Qed.
+
+Lemma allobjs_sorted idn c : StronglySorted lt_id (allobjs idn c).
+Proof. apply sorted_objects, category_sorted. Qed.
+
+Lemma expected_sorted idn c s : StronglySorted lt_id (expected idn c s).
+Proof. rewrite expected_alt. apply sorted_filter, allobjs_sorted. Qed.
+
+Lemma sorted_app_before acc x rest :
+  StronglySorted lt_id (acc ++ x :: rest) -> Forall (fun a => lt_id a x) acc.
+Proof.
+  induction acc as [|a t IH]; intros H; [constructor|]. cbn [app] in H.
+  inversion H as [|? ? Hs Hf]; subst. constructor.
+  - rewrite Forall_forall in Hf. apply Hf. apply in_or_app. right. left. reflexivity.
+  - apply IH. exact Hs.
+Qed.
+
+Lemma sorted_app_tail acc l : StronglySorted lt_id (acc ++ l) -> StronglySorted lt_id l.
+Proof. induction acc as [|a t IH]; intros H; [exact H|]. inversion H; subst. auto. Qed.
+
+(* the suffix of a strictly increasing list that starts at x is "everything from x's id on" *)
+Lemma suffix_is_filter acc x rest :
+  StronglySorted lt_id (acc ++ x :: rest) ->
+  filter (from (fst x)) (acc ++ x :: rest) = x :: rest.
+Proof.
+  intros H. rewrite filter_app.
+  pose proof (sorted_app_before _ _ _ H) as Hb. pose proof (sorted_app_tail _ _ H) as Ht.
+  rewrite filter_none.
+  - cbn [app]. apply filter_all. intros y [Hy|Hy]; unfold from; [subst y; lia|].
+    inversion Ht as [|? ? _ Hf]; subst. rewrite Forall_forall in Hf. specialize (Hf y Hy).
+    unfold lt_id in Hf. lia.
+  - intros y Hy. rewrite Forall_forall in Hb. specialize (Hb y Hy). unfold lt_id, from in *. lia.
+Qed.
+
+Lemma sorted_nodup l : StronglySorted lt_id l -> NoDup (map fst l).
+Proof.
+  induction 1 as [|a t Hs IH Hf]; cbn [map]; constructor; [|exact IH].
+  intros Hin. apply in_map_iff in Hin as [y [Hy Hin]]. rewrite Forall_forall in Hf.
+  specialize (Hf y Hin). unfold lt_id in Hf. lia.
+Qed.
+
+(* ------------------------------------------------------------------ what the factory returns *)
+
+Definition skip3 (x : Z) : bool := negb ((7 <=? x) && (x <? 128)).
+
+Lemma factory_get_1 idn oid : factory_get code idn 1 oid = Ok (objects_of idn (py_range oid 3)).
+Proof. reflexivity. Qed.
+
+Lemma factory_get_2 idn oid :
+  factory_get code idn 2 oid =
+  Ok (objects_of idn (if nonempty (idn oid) then py_range oid 7 else py_range 0 7)).
+Proof. reflexivity. Qed.
+
+Lemma factory_get_3 idn oid :
+  factory_get code idn 3 oid =
+  Ok (objects_of idn (if nonempty (idn oid) then filter skip3 (py_range oid 256)
+                      else filter skip3 (py_range 0 256))).
+Proof. reflexivity. Qed.
+
+Lemma factory_get_4 idn oid : factory_get code idn 4 oid = Ok [(oid, idn oid)].
+Proof. reflexivity. Qed.
+
+Lemma category_1 : category 1 = py_range 0 3. Proof. reflexivity. Qed.
+Lemma category_2 : category 2 = py_range 0 7. Proof. reflexivity. Qed.
+Lemma category_3 : category 3 = filter skip3 (py_range 0 256). Proof. vm_compute. reflexivity. Qed.
+
+Lemma from0 idn c : expected idn c 0 = allobjs idn c.
+Proof.
+  rewrite expected_alt. apply filter_all. intros [k v] Hin. unfold allobjs in Hin.
+  apply objects_of_In in Hin as [Hk _]. apply category_bounds in Hk. unfold from; cbn [fst]. lia.
+Qed.
+
+(* stream access: the objects of the category from s on, where s is the requested id, or 0
+   when (codes 2, 3) the requested object is not configured *)
+Definition stream_start (idn : identity) (c oid : Z) : Z :=
+  if (c =? 1) || nonempty (idn oid) then oid else 0.
+
+Lemma stream_get idn c oid :
+  c = 1 \/ c = 2 \/ c = 3 -> 0 <= oid ->
+  factory_get code idn c oid = Ok (expected idn c (stream_start idn c oid)).
+Proof.
+  intros Hc Hoid. unfold stream_start. destruct Hc as [-> | [-> | ->]].
+  - rewrite factory_get_1. cbn [Z.eqb Pos.eqb orb]. unfold expected. rewrite category_1.
+    rewrite (py_range_filter oid 3 Hoid). reflexivity.
+  - rewrite factory_get_2. cbn [Z.eqb Pos.eqb orb]. destruct (nonempty (idn oid)).
+    + unfold expected. rewrite category_2, (py_range_filter oid 7 Hoid). reflexivity.
+    + rewrite from0. reflexivity.
+  - rewrite factory_get_3. cbn [Z.eqb Pos.eqb orb]. destruct (nonempty (idn oid)).
+    + unfold expected. rewrite category_3, (py_range_filter oid 256 Hoid), filter_comm. reflexivity.
+    + rewrite from0. unfold allobjs. rewrite category_3. reflexivity.
+Qed.
+
+Lemma execute_ok idn c oid :
+  1 <= c <= 4 -> 0 <= oid <= 255 ->
+  execute code idn c oid = (do info <- factory_get code idn c oid; Ok (InfoResponse c info)).
+Proof.
+  intros Hc Ho. unfold execute. rewrite reject_object_id_eq, reject_read_code_eq.
+  replace ((0 <=? oid) && (oid <=? 255)) with true by lia.
+  replace ((0 <=? c) && (c <=? 4)) with true by lia. cbn [negb].
+  replace (c =? 0) with false by lia. reflexivity.
+Qed.
+
+(* ------------------------------------------------------------------ one page *)
+
+Definition fits (idn : identity) : Prop := forall k, blen (idn k) <= 244.
+
+Lemma page_objs_split objs : forall space acc oos,
+  page_objs code space objs = (acc, oos) ->
+  match oos with
+  | None => acc = objs
+  | Some k => exists v rest, objs = acc ++ (k, v) :: rest
+  end.
+Proof.
+  induction objs as [|[k v] t IH]; intros space acc oos H.
+  - cbn in H. inversion H; subst. reflexivity.
+  - rewrite page_objs_cons in H. destruct (space - (2 + blen v) <=? 0).
+    + inversion H; subst. exists v, t. reflexivity.
+    + destruct (page_objs code (space - (2 + blen v)) t) as [acc' oos'] eqn:E.
+      inversion H; subst. specialize (IH _ _ _ E). destruct oos as [k'|].
+      * destruct IH as [v' [rest ->]]. exists v', rest. reflexivity.
+      * subst. reflexivity.
+Qed.
+
+(* an object of at most 244 bytes at the head of the list is always accepted on a fresh page *)
+Lemma page_objs_progress k v t acc oos :
+  blen v <= 244 -> page_objs code (space0 code) ((k, v) :: t) = (acc, oos) -> acc <> [].
+Proof.
+  intros Hv H. rewrite space0_eq, page_objs_cons in H.
+  destruct (247 - (2 + blen v) <=? 0) eqn:E; [lia|].
+  destruct (page_objs code (247 - (2 + blen v)) t). inversion H; subst. discriminate.
+Qed.
+
+(* ------------------------------------------------------------------ the chain *)
+
+Lemma expected_from_member idn c s k v :
+  In (k, v) (expected idn c s) -> s <= k /\ 0 <= k <= 255 /\ v = idn k /\ nonempty (idn k) = true.
+Proof.
+  rewrite expected_alt. intros H. apply filter_In in H as [Hin Hf]. unfold allobjs in Hin.
+  apply objects_of_In in Hin as [Hk [-> Hn]]. unfold from in Hf; cbn [fst] in Hf.
+  repeat split; try (apply category_bounds in Hk); try lia. exact Hn.
+Qed.
+
+Lemma expected_suffix idn c s acc k v rest :
+  expected idn c s = acc ++ (k, v) :: rest -> expected idn c k = (k, v) :: rest.
+Proof.
+  intros H. assert (Hs : s <= k).
+  { apply (expected_from_member idn c s k v). rewrite H. apply in_or_app. right. left. reflexivity. }
+  rewrite expected_alt. rewrite <- (filter_weaker (from k) (from s)) by (unfold from; intros; lia).
+  rewrite <- expected_alt. rewrite H.
+  pose proof (suffix_is_filter acc (k, v) rest) as Hsf. cbn [fst] in Hsf.
+  pose proof (expected_sorted idn c s) as Hsort. rewrite H in Hsort. exact (Hsf Hsort).
+Qed.
+
+Definition stream_code (c : Z) : Prop := c = 1 \/ c = 2 \/ c = 3.
+
+Lemma pchain_S idn c oid f :
+  pchain code idn c oid (S f) =
+  match execute code idn c oid with
+  | Ok (InfoResponse rc info) =>
+      let p := page_of code rc info in
+      if pg_more p =? 255 then
+        let '(ps, e) := pchain code idn c (pg_next p) f in (p :: ps, e)
+      else ([p], PDone)
+  | Ok (ExcResponse e) => ([], PExc e)
+  | Raise e => ([], PRaises e)
+  end.
+Proof. reflexivity. Qed.
+
+Lemma pchain_from idn c : fits idn -> stream_code c ->
+  forall n start s, 0 <= start <= 255 ->
+    factory_get code idn c start = Ok (expected idn c s) ->
+    (length (expected idn c s) <= n)%nat ->
+    exists ps, pchain code idn c start (S n) = (ps, PDone)
+               /\ concat (map pg_objs ps) = expected idn c s
+               /\ (length ps <= S n)%nat.
+Proof.
+  intros Hfit Hc. induction n as [|n IH]; intros start s Hst Hget Hlen.
+  - destruct (expected idn c s) as [|o t] eqn:E; [|cbn in Hlen; lia].
+    rewrite pchain_S, execute_ok by (unfold stream_code in Hc; lia). rewrite Hget. cbn [bind].
+    exists [page_of code c []]. vm_compute. auto.
+  - rewrite pchain_S, execute_ok by (unfold stream_code in Hc; lia). rewrite Hget. cbn [bind].
+    cbv zeta. unfold page_of. destruct (page_objs code (space0 code) (expected idn c s)) as [acc oos] eqn:E.
+    pose proof (page_objs_split _ _ _ _ E) as Hsp. destruct oos as [k|].
+    + destruct Hsp as [v [rest Hsp]]. cbn [pg_more pg_next].
+      replace (c_more_keep code =? 255) with true by reflexivity.
+      assert (Hmem : In (k, v) (expected idn c s)) by (rewrite Hsp; apply in_or_app; right; left; reflexivity).
+      apply expected_from_member in Hmem as [Hsk [Hk [Hv Hne]]].
+      assert (Hacc : acc <> []).
+      { destruct (expected idn c s) as [|[k0 v0] t0] eqn:E0.
+        - destruct acc; discriminate.
+        - eapply page_objs_progress; [|exact E].
+          assert (Hin0 : In (k0, v0) (expected idn c s)) by (rewrite E0; left; reflexivity).
+          apply expected_from_member in Hin0 as [_ [_ [-> _]]]. apply Hfit. }
+      pose proof (expected_suffix _ _ _ _ _ _ _ Hsp) as Hnext.
+      assert (Hget' : factory_get code idn c k = Ok (expected idn c k)).
+      { rewrite stream_get by (auto; lia). unfold stream_start. rewrite Hne, orb_true_r. reflexivity. }
+      assert (Hlen' : (length (expected idn c k) <= n)%nat).
+      { rewrite Hnext. rewrite Hsp, app_length in Hlen. destruct acc; [congruence|]. cbn [length] in *. lia. }
+      destruct (IH k k ltac:(lia) Hget' Hlen') as [ps [Hp [Hcat Hl]]].
+      rewrite Hp. eexists. split; [reflexivity|]. cbn [map concat pg_objs length].
+      rewrite Hcat, Hnext, Hsp. split; [reflexivity | lia].
+    + subst acc. cbn [pg_more].
+      replace (c_more_nothing code =? 255) with false by reflexivity.
+      eexists. split; [reflexivity|]. cbn [map concat pg_objs length]. rewrite app_nil_r. split; [reflexivity | lia].
+Qed.
+
+(* start_ok, as a proposition over Z *)
+Lemma start_ok_get idn c oid :
+  stream_code c -> start_ok idn c oid = true ->
+  0 <= oid <= 255 /\ factory_get code idn c oid = Ok (expected idn c oid).
+Proof.
+  intros Hc H. unfold start_ok in H. apply orb_prop in H as [H|H].
+  - assert (oid = 0) by lia. subst. split; [lia|]. rewrite stream_get by (auto; lia).
+    unfold stream_start. destruct ((c =? 1) || nonempty (idn 0)); reflexivity.
+  - apply andb_prop in H as [Hin Hne]. apply existsb_exists in Hin as [x [Hx Heq]].
+    assert (x = oid) by lia. subst x. pose proof (category_bounds _ _ Hx) as Hb. split; [lia|].
+    rewrite stream_get by (auto; lia). unfold stream_start. rewrite Hne, orb_true_r. reflexivity.
+Qed.
+
+Lemma complete_pages idn c oid fuel :
+  fits idn -> stream_code c -> start_ok idn c oid = true ->
+  (length (expected idn c oid) < fuel)%nat ->
+  exists ps, pchain code idn c oid fuel = (ps, PDone)
+             /\ concat (map pg_objs ps) = expected idn c oid
+             /\ NoDup (map fst (concat (map pg_objs ps))).
+Proof.
+  intros Hfit Hc Hs Hf. destruct (start_ok_get _ _ _ Hc Hs) as [Hb Hget].
+  destruct fuel as [|n]; [lia|].
+  destruct (pchain_from idn c Hfit Hc n oid oid Hb Hget ltac:(lia)) as [ps [Hp [Hcat _]]].
+  exists ps. split; [exact Hp|]. split; [exact Hcat|]. rewrite Hcat. apply sorted_nodup, expected_sorted.
+Qed.
+
+(* any start id: the chain terminates (and returns the stream from the effective start) *)
+Lemma other_start_terminates idn c oid fuel :
+  fits idn -> stream_code c -> 0 <= oid <= 255 ->
+  (length (category c) < fuel)%nat ->
+  exists ps, pchain code idn c oid fuel = (ps, PDone)
+             /\ concat (map pg_objs ps) = expected idn c (stream_start idn c oid).
+Proof.
+  intros Hfit Hc Hb Hf. destruct fuel as [|n]; [lia|].
+  assert (Hlen : (length (expected idn c (stream_start idn c oid)) <= n)%nat).
+  { unfold expected, objects_of. eapply Nat.le_trans; [apply filter_len_le|].
+    rewrite map_length. eapply Nat.le_trans; [apply filter_len_le|]. lia. }
+  destruct (pchain_from idn c Hfit Hc n oid _ Hb (stream_get idn c oid Hc ltac:(lia)) Hlen) as [ps [Hp [Hcat _]]].
+  exists ps. auto.
+Qed.
+
+(* individual access *)
+Lemma individual_page idn oid fuel :
+  0 <= oid <= 255 -> blen (idn oid) <= 244 -> (0 < fuel)%nat ->
+  pchain code idn 4 oid fuel =
+  ([{| pg_code := 4; pg_more := 0; pg_next := 0; pg_objs := [(oid, idn oid)] |}], PDone).
+Proof.
+  intros Hb Hv Hf. destruct fuel as [|n]; [lia|]. cbn [pchain].
+  rewrite execute_ok by lia. rewrite factory_get_4. cbn [bind]. unfold page_of.
+  rewrite space0_eq, page_objs_cons. destruct (247 - (2 + blen (idn oid)) <=? 0) eqn:E; [lia|].
+  cbn [page_objs pg_more pg_next]. reflexivity.
+Qed.
+
+(* the property's own quantifier (values up to 245 bytes) is not satisfiable by this code *)
+Lemma pchain_long_forever fuel : snd (pchain code long_identity 1 0 fuel) = POutOfFuel.
+Proof.
+  induction fuel as [|f IH]; [reflexivity|]. rewrite pchain_S.
+  replace (execute code long_identity 1 0) with (Ok (InfoResponse 1 [(0, long_value)])) by (vm_compute; reflexivity).
+  cbv zeta. replace (page_of code 1 [(0, long_value)])
+    with {| pg_code := 1; pg_more := 255; pg_next := 0; pg_objs := [] |} by (vm_compute; reflexivity).
+  cbn [pg_more pg_next Z.eqb Pos.eqb]. destruct (pchain code long_identity 1 0 f) as [ps e]. exact IH.
+Qed.
+
+Lemma full_statement_refuted :
+  ~ (forall idn c oid,
+       (forall k, blen (idn k) <= 245) -> stream_code c -> start_ok idn c oid = true ->
+       exists fuel ps, pchain code idn c oid fuel = (ps, PDone)
+                       /\ concat (map pg_objs ps) = expected idn c oid).
+Proof.
+  intros H. destruct (H long_identity 1 0) as [fuel [ps [Hp _]]].
+  - intro k. unfold long_identity, id_of. destruct (0 =? k); vm_compute; discriminate.
+  - left; reflexivity.
+  - reflexivity.
+  - pose proof (pchain_long_forever fuel) as Hf. rewrite Hp in Hf. discriminate.
+Qed.
